@@ -1014,6 +1014,15 @@ def _literal_value(node: ast.AST) -> bool:
     ):
         left = literal_value(node.left)
         right = literal_value(node.right)
+        if (
+            isinstance(node.op, (ast.Pow, ast.LShift, ast.Mult))
+            and isinstance(right, int)
+            and abs(right) > 10_000
+            and not isinstance(left, (bool, float))
+            and (left not in (0, 1, -1) or isinstance(node.op, ast.LShift))
+        ):
+            # 9 ** 9 ** 9 has a value, that nobody is going to wait for
+            raise ValueError("Cannot find a value within reasonable time")
         return constants.COMPARISON_OPERATORS[type(node.op)](left, right)
 
     if match_template(node, ast.Compare(left=object, ops={object}, comparators={object})):
